@@ -1183,3 +1183,36 @@ fn c13_export_secret_deleted() {
     assert!(p.calls() == 0);
     core::mem::forget((r, ks));
 }
+
+// ---- TEMP experiments
+#[kani::proof]
+#[kani::stub(zeroize::optimization_barrier, noop_barrier)]
+#[kani::unwind(82)]
+fn z1_export_concrete_len() {
+    let label: [u8; 2] = kani::any();
+    let context: [u8; 2] = kani::any();
+    let exporter = any_exact::<NH>();
+    let len: usize = 300;
+    let mut ks = KeySchedule::default();
+    ks.exporter_secret = Zeroizing::new(exporter.clone());
+    let p = GhostProvider::new();
+    let r = ks.export_secret(&label, &context, len, &p);
+    assert!(r.is_ok());
+    let o = r.ok().unwrap();
+    assert!(p.calls() == 3);
+    let d = p.find(Op::Expand, &exporter, &rfc_kdf_label(NH as u16, &label, &[]), NH);
+    let h = p.find(Op::Hash, &[], &context, 0);
+    assert!(d.is_some() && h.is_some());
+    let info = rfc_kdf_label(len as u16, b"exported", &out(h.unwrap(), HASH_LEN));
+    assert!(p.is(2, Op::Expand, &out(d.unwrap(), NH), &info, len));
+    core::mem::forget((o, ks));
+}
+
+#[kani::proof]
+#[kani::stub(zeroize::optimization_barrier, noop_barrier)]
+#[kani::unwind(82)]
+fn z2_export_symbolic_len_one_arm() {
+    let label: [u8; 2] = kani::any();
+    let context: [u8; 2] = kani::any();
+    export_secret_case(&label, &context);
+}
